@@ -45,6 +45,7 @@ class OperatorCheck(Check):
     }
     sem_all_bases = {"quick": 0, "thorough": 10}
     use_b1 = True
+    b1_full_q2 = True     # quick: B1 x all 264 syntactic queries (False: x the 89 semantic-class queries)
     use_b2 = True
     maxn = 99
 
@@ -64,7 +65,7 @@ class OperatorCheck(Check):
                 continue
             via = "parse" if (n + seed) % 4 == 0 else "api"
             n += 1
-            qspec = ("list", q2 if scope == "B1" else qs2)
+            qspec = ("list", q2 if (scope == "B1" and (self.b1_full_q2 or tier != "quick")) else qs2)
             out.append(opsem.make_task(scopes.SIG2, conds, self.weakly, self.cfgs, qspec, via=via, wsig=WSIG2, cls=cls,
                                        scope=scope, keys=alt_keys(n, len(conds)) if via == "api" else None))
         # bases containing the SAME conditional twice (same formulas, same text, different keys): [c1, c1, c2] for every
